@@ -1046,11 +1046,13 @@ def _c09_worker(args):
                 edit_source()
                 cnt("reruns_after_source_edit")
             ok = False
-            for attempt in range(2):
+            for attempt in range(1):  # the statement allows no retry: "running the same command again completes"
                 rr = run(ow.argv(), ow.env(), cwd=ow.home, timeout=120)
                 cnt("recovery_runs")
                 if rr.code == 0:
                     ok = True
+                    if attempt:
+                        cnt("reruns_that_needed_a_second_attempt[%s]" % direction)
                     break
             fin = content_map(snapshot(ow.dst))
             if not ok:
@@ -1069,7 +1071,7 @@ def _c09_worker(args):
 
 def c09(tier):
     build("cli", "shim")
-    r = Result("C09", "fault_enumeration", "one evaluation = one (scenario, direction, k): `sync -r` killed by the shim immediately before its k-th file-system or pipe write call, for EVERY k until a run is no longer killed; for push the orphaned remote shell is left to finish; then every destination path must hold its complete old bytes or the complete source bytes (absent only if it was absent / planned for deletion), files outside the plan unchanged, source unchanged; re-running the command (<= 2 times) must succeed and equal the uninterrupted result; distinct non-trivial = distinct post-crash destination states")
+    r = Result("C09", "fault_enumeration", "one evaluation = one (scenario, direction, k): `sync -r` killed by the shim immediately before its k-th file-system or pipe write call, for EVERY k until a run is no longer killed; for push the orphaned remote shell is left to finish; then every destination path must hold its complete old bytes or the complete source bytes (absent only if it was absent / planned for deletion), files outside the plan unchanged, source unchanged; re-running the command ONCE must succeed and equal the uninterrupted result; distinct non-trivial = distinct post-crash destination states")
     th = tier == "thorough"
     names = list(c09_scenarios())
     if th:
